@@ -27,28 +27,40 @@ META = {
         "Coq proof (induction over histories) on a dependency abstraction generated from the source by an AST scan "
         "(objects that outlive a run, who writes them, what reaches the output; unordered iterations) + deep-hash "
         "snapshots of all pdb2pqr module/class/default state around real runs + A-B-A / A-fail-A histories in one "
-        "process and fresh processes under several PYTHONHASHSEEDs with byte comparison"
+        "process and fresh processes under several PYTHONHASHSEEDs with byte comparison + environment histories (same "
+        "request from another working directory holding decoys named like every file the program probes, other "
+        "HOME/LANG/LC_ALL/TZ/umask/clock, every variable the package consults) + run-time tie of the scan's "
+        "file-system sites to traced accesses"
     ),
     "level_text": (
         "PARTIAL BY NATURE - proof on an abstraction + exploration, not a proof about Python. Proved in Coq for ALL histories "
         "(complete runs and crashed runs with arbitrary partial writes), all inputs and all entropy assignments (hash seed, "
         "addresses, clock): if every survivor is never written after import or never read towards the output and no unordered "
-        "iteration reaches the output un-sorted, the output of a run does not depend on the history; the two boolean obligations "
+        "iteration / environment read (path resolved against the working directory, environment variable, locale, clock) "
+        "reaches the output, the output of a run does not depend on the history NOR on the environment the process sits in "
+        "(C11_environment_independence: the whole history replayed under another entropy assignment); the two boolean obligations "
         "are discharged by vm_compute on the tables regenerated from the tree on every run, and both are shown necessary. "
         "What the scan means (a run reads/writes only what the table says) is a hypothesis of the theorem: its write half is "
         "checked by snapshots around real successful and failing runs, its read half and interpreter-level nondeterminism "
-        "(set order, id(), C extensions, third-party state e.g. PROPKA) are only explored by byte-comparing repeated runs."
+        "(set order, id(), C extensions, third-party state e.g. PROPKA) are only explored by byte-comparing repeated runs. "
+        "Environment sites: every file-system access in pdb2pqr/** is listed with the provenance of its path (fail-closed "
+        "taint scan; the site list is tied to os.stat/open traces of real runs); which options carry paths and why 25 "
+        "listed sites cannot reach the PQR bytes is REVIEWED text, not proof; the environment histories are exploration."
     ),
     "level_note": (
         "Trusted: Coq kernel+vm_compute; the AST scan gen/survivors.py (name-based alias analysis; validated by snapshots); the "
         "review list gen/survivors_reviewed.json (each entry a stated reason why a written survivor / set iteration cannot reach "
-        "the PQR bytes); the snapshot hasher; the fixed set of structures/options/histories/seeds explored."
+        "the PQR bytes, plus the list of path-carrying options); the snapshot hasher; the os/open tracer; the fixed set of "
+        "structures/options/histories/seeds/environment factors explored."
     ),
     "design_ref": "DESIGN.md 4 C11",
 }
 
 THEOREMS = [
     "C11_history_independence",
+    "C11_environment_independence",
+    "C11_environment_obligation_necessary",
+    "C11_nonvacuous_environment",
     "C11_generated_obligation",
     "C11_no_unordered_iteration",
     "C11_generated_history_independence",
@@ -441,30 +453,45 @@ def child_main(spec_json):
 
     struct, opts, post = expand((spec["cfg"][0], spec["cfg"][1]), scratch)
     outp = Path(spec["out"])
+    if spec.get("umask") is not None:
+        os.umask(int(spec["umask"]))
     try:
-        args = pmain.build_main_parser().parse_args([*opts, struct, str(outp)])
-        for k, v in post.items():
-            setattr(args, k, v)
-        pmain.main_driver(args)
+        with shifted_clock(spec["shift"]) if spec.get("shift") else contextlib.nullcontext():
+            args = pmain.build_main_parser().parse_args([*opts, struct, str(outp)])
+            for k, v in post.items():
+                setattr(args, k, v)
+            pmain.main_driver(args)
         err = None
     except BaseException as e:  # noqa: BLE001
         err = f"{type(e).__name__}: {str(e)[:120]}"
-    print("C11CHILD " + json.dumps({"err": err, "import_state": imp, "hashseed": os.environ.get("PYTHONHASHSEED"), "probe": hash("pdb2pqr") % 1000}))
+    import locale as _loc
+    import time as _time
+
+    print("C11CHILD " + json.dumps({"err": err, "import_state": imp, "hashseed": os.environ.get("PYTHONHASHSEED"), "probe": hash("pdb2pqr") % 1000, "cwd": os.getcwd(), "encoding": _loc.getpreferredencoding(False), "tz": _time.tzname[0]}))
 
 
-def run_children(jobs, scratch: Path, maxpar=10):
-    """jobs: [(name, cfg, seed)] -> {(name, k): (bytes|None, info)}; k = job index"""
+def run_children(jobs, scratch: Path, maxpar=10, env_of=None):
+    """jobs: [(name, cfg, seed, ...)] -> {(name, k): (bytes|None, info)}; k = job index.
+    env_of(job) -> (env updates, cwd, umask, clock shift) dresses the child's environment."""
     res = {}
     for i in range(0, len(jobs), maxpar):
         procs = []
-        for k, (name, cfg, seed) in enumerate(jobs[i : i + maxpar], start=i):
+        for k, job in enumerate(jobs[i : i + maxpar], start=i):
+            name, cfg, seed = job[0], job[1], job[2]
             outp = scratch / f"child_{k}.pqr"
             env = dict(os.environ)
             env["PYTHONHASHSEED"] = seed
             env["PYTHONPATH"] = f"{core.REPO}:{core.VERIF}"
             env["PYTHONDONTWRITEBYTECODE"] = "1"
-            spec = json.dumps({"cfg": [cfg[0], cfg[1]], "scratch": str(scratch), "out": str(outp)})
-            p = subprocess.Popen([sys.executable, "-c", CHILD, spec], env=env, stdout=subprocess.PIPE, stderr=subprocess.PIPE, text=True, cwd=str(scratch))
+            sp = {"cfg": [cfg[0], cfg[1]], "scratch": str(scratch), "out": str(outp)}
+            cwd = str(scratch)
+            if env_of is not None:
+                upd, cwd2, um, shift = env_of(job)
+                env.update(upd)
+                cwd = cwd2 or cwd
+                sp["umask"], sp["shift"] = um, shift
+            spec = json.dumps(sp)
+            p = subprocess.Popen([sys.executable, "-c", CHILD, spec], env=env, stdout=subprocess.PIPE, stderr=subprocess.PIPE, text=True, cwd=cwd)
             procs.append((k, name, seed, outp, p))
         for k, name, seed, outp, p in procs:
             try:
@@ -486,6 +513,391 @@ def run_children(jobs, scratch: Path, maxpar=10):
 
 
 # ---------------------------------------------------------------------------
+# environment: tracing what the program looks up, decoys, moved / re-dressed processes
+
+import builtins  # noqa: E402
+import contextlib  # noqa: E402
+import re as _re  # noqa: E402
+import shutil  # noqa: E402
+import sysconfig  # noqa: E402
+
+_STDLIBS = tuple({sysconfig.get_paths()["stdlib"], os.path.realpath(sysconfig.get_paths()["stdlib"]), os.path.dirname(os.__file__)})
+_PKG = os.path.realpath(str(core.REPO / "pdb2pqr"))
+_PKGS = tuple({_PKG + os.sep, str(core.REPO / "pdb2pqr") + os.sep})
+_SELF = (__file__, os.path.realpath(__file__), os.path.abspath(__file__))
+_AUDIT = {"on": False, "sink": None}
+
+
+def _audit_hook(event, args):
+    if _AUDIT["on"] and event == "open" and args and isinstance(args[0], (str, bytes, os.PathLike)):
+        _AUDIT["sink"]("open", args[0], 3)
+
+
+class Trace:
+    """Records every path probed (open / stat family / listdir) and every environment
+    variable consulted while active, with the package frame that asked."""
+
+    installed = False
+
+    def __init__(self):
+        self.probes = {}  # path string -> set of (kind, who)
+        self.envvars = {}  # name -> who
+        self._saved = []
+        self._busy = False
+
+    def _who(self, depth):
+        # no file-system call in here: the stat family is patched while a trace is active
+        f = sys._getframe(depth)
+        hops = 0
+        while f is not None and hops < 60:
+            fn = f.f_code.co_filename
+            if fn in _SELF:
+                return "harness"
+            if (fn.startswith(_STDLIBS) and "site-packages" not in fn) or fn.startswith("<"):
+                f = f.f_back
+                hops += 1
+                continue
+            for pre in _PKGS:
+                if fn.startswith(pre):
+                    return f"pdb2pqr/{fn[len(pre):]}:{f.f_lineno}"
+            return "third-party:" + "/".join(fn.split(os.sep)[-2:])
+        return "?"
+
+    def note(self, kind, path, depth):
+        if self._busy:
+            return
+        self._busy = True
+        try:
+            sp = os.fsdecode(os.fspath(path))
+            who = self._who(depth)
+            if who != "harness":
+                self.probes.setdefault(sp, set()).add((kind, who))
+        except TypeError:
+            pass
+        finally:
+            self._busy = False
+
+    def __enter__(self):
+        if not Trace.installed:
+            sys.addaudithook(_audit_hook)
+            Trace.installed = True
+        _AUDIT["sink"] = self.note
+        _AUDIT["on"] = True
+        tr = self
+
+        def wrap(mod, name, kind):
+            orig = getattr(mod, name)
+
+            def f(path, *a, **k):
+                if not isinstance(path, int):
+                    tr.note(kind, path, 3)
+                return orig(path, *a, **k)
+
+            f.__wrapped__ = orig
+            setattr(mod, name, f)
+            self._saved.append((mod, name, orig))
+
+        for nm in ("stat", "lstat", "access", "listdir", "scandir"):
+            wrap(os, nm, nm)
+        env_cls = type(os.environ)
+        og = env_cls.__getitem__
+
+        def getitem(self_, key):
+            who = tr._who(2)
+            if who.startswith("pdb2pqr/"):
+                tr.envvars.setdefault(str(key), who)
+            return og(self_, key)
+
+        env_cls.__getitem__ = getitem
+        self._saved.append((env_cls, "__getitem__", og))
+        return self
+
+    def __exit__(self, *a):
+        _AUDIT["on"] = False
+        for mod, name, orig in reversed(self._saved):
+            setattr(mod, name, orig)
+        self._saved = []
+
+
+def decoy_names(probes, scratch: Path):
+    """Every relative or bare name the program probed, plus the bare names of what it
+    probed inside its own package directory (hits and misses)."""
+    names = {}
+    datdir = os.path.join(_PKG, "dat")
+    for sp in probes:
+        if sp in ("", ".", ".."):
+            continue
+        if not os.path.isabs(sp):
+            names[sp] = "relative path probed"
+            continue
+        rp = os.path.realpath(sp)
+        if rp.startswith(_PKG + os.sep) and not rp.endswith((".py", ".pyc")) and "__pycache__" not in rp and os.path.realpath(os.path.dirname(rp)) != os.path.realpath(str(scratch)):
+            if os.path.isdir(rp):
+                continue
+            names.setdefault(os.path.basename(rp), "bare name of a package-directory lookup")
+    # the data files themselves, whatever was probed
+    if os.path.isdir(datdir):
+        for fn in sorted(os.listdir(datdir)):
+            names.setdefault(fn, "name of a file under pdb2pqr/dat")
+    return names
+
+
+_FLOAT = _re.compile(r"(?<![\w.])(-?\d+\.\d+)(?![\w.])")
+
+
+def altered_copy(real: Path) -> bytes:
+    """The real file with EVERY decimal number nudged (x -> 1.03*x + 0.017, same number of
+    decimals): still well-formed, but any output computed from it differs - the decoy wins
+    SILENTLY. (The second decoy directory holds the same names with garbage content: a run
+    that reads any of them fails.)"""
+    txt = real.read_bytes().decode("latin-1")
+    if real.suffix.lower() == ".dat":
+        # force-field table "RES ATOM charge radius [group]": only the RADIUS moves (non-integral total
+        # charges would trip the program's own charge guard - the decoy is meant to win silently)
+        out = []
+        for line in txt.splitlines(True):
+            tok = _re.split(r"(\s+)", line)
+            idx = [i for i, t in enumerate(tok) if t and not t.isspace()]
+            if len(idx) >= 4 and not line.startswith("#"):
+                try:
+                    float(tok[idx[2]])
+                    r = float(tok[idx[3]])
+                    tok[idx[3]] = f"{r * 1.03 + 0.017:.4f}"
+                except ValueError:
+                    pass
+            out.append("".join(tok))
+        return "".join(out).encode("latin-1")
+
+    def nudge(m):
+        tok = m.group(1)
+        dec = len(tok.split(".")[1])
+        return f"{float(tok) * 1.03 + 0.017:.{dec}f}"
+
+    new, n = _FLOAT.subn(nudge, txt)
+    return new.encode("latin-1")  # a file without decimal numbers (the .names maps) is copied verbatim
+
+
+def build_decoys(names, d: Path, garbage=False):
+    datdir = Path(_PKG) / "dat"
+    real = {p.name: p for p in datdir.iterdir() if p.is_file()} if datdir.is_dir() else {}
+    made = []
+    for sub in ("", "dat", "pdb2pqr/dat"):
+        (d / sub).mkdir(parents=True, exist_ok=True)
+    for name in sorted(names):
+        base = os.path.basename(name)
+        src = real.get(base)
+        if src is None:
+            cands = [p for n, p in sorted(real.items()) if n.lower() == base.lower()] or [p for n, p in sorted(real.items()) if n.lower().split(".")[0] == base.lower().split(".")[0] and (("." not in base) or n.lower().endswith(base.lower().rsplit(".", 1)[1]))]
+            src = cands[0] if cands else None
+        if not garbage and (src is None or src.name.lower() != base.lower()):
+            continue  # the well-formed directory only holds look-alikes of files that exist (suffix-less guesses go to the garbage one)
+        content = altered_copy(src) if not garbage else b"decoy file: not data\n"
+        for sub in ("", "dat", "pdb2pqr/dat"):
+            tgt = d / sub / name
+            try:
+                if tgt.resolve().is_relative_to(d.resolve()):
+                    tgt.parent.mkdir(parents=True, exist_ok=True)
+                    if not tgt.exists():
+                        tgt.write_bytes(content)
+            except OSError:
+                continue
+        made.append(name)
+    return made
+
+
+@contextlib.contextmanager
+def shifted_clock(delta):
+    """time.* and the datetime classes seen by pdb2pqr modules answer `delta` seconds later."""
+    import datetime as _dt
+    import time as _t
+
+    saved = []
+
+    def put(obj, name, val):
+        saved.append((obj, name, getattr(obj, name)))
+        setattr(obj, name, val)
+
+    o_time, o_local, o_gm, o_strf, o_ctime, o_asc, o_ns = _t.time, _t.localtime, _t.gmtime, _t.strftime, _t.ctime, _t.asctime, _t.time_ns
+    put(_t, "time", lambda: o_time() + delta)
+    put(_t, "time_ns", lambda: o_ns() + int(delta * 1e9))
+    put(_t, "localtime", lambda s=None: o_local(o_time() + delta if s is None else s))
+    put(_t, "gmtime", lambda s=None: o_gm(o_time() + delta if s is None else s))
+    put(_t, "strftime", lambda fmt, t=None: o_strf(fmt, o_local(o_time() + delta) if t is None else t))
+    put(_t, "ctime", lambda s=None: o_ctime(o_time() + delta if s is None else s))
+    put(_t, "asctime", lambda t=None: o_asc(o_local(o_time() + delta) if t is None else t))
+
+    class SDateTime(_dt.datetime):
+        @classmethod
+        def now(cls, tz=None):
+            return _dt.datetime.fromtimestamp(o_time() + delta, tz)
+
+        @classmethod
+        def today(cls):
+            return _dt.datetime.fromtimestamp(o_time() + delta)
+
+        @classmethod
+        def utcnow(cls):
+            return _dt.datetime.fromtimestamp(o_time() + delta, _dt.timezone.utc).replace(tzinfo=None)
+
+    class SDate(_dt.date):
+        @classmethod
+        def today(cls):
+            return _dt.date.fromtimestamp(o_time() + delta)
+
+    for mname, mod in list(sys.modules.items()):
+        if mod is not None and (mname == "pdb2pqr" or mname.startswith("pdb2pqr.")):
+            for k, v in list(vars(mod).items()):
+                if v is _dt.datetime:
+                    put(mod, k, SDateTime)
+                elif v is _dt.date:
+                    put(mod, k, SDate)
+    put(_dt, "datetime", SDateTime)
+    put(_dt, "date", SDate)
+    try:
+        yield
+    finally:
+        for obj, name, val in reversed(saved):
+            setattr(obj, name, val)
+
+
+ENV_FACTORS_QUICK = ["cwd-decoys", "cwd-garbage", "home-decoys", "lang-C", "lc-all-posix-noutf8", "lang-latin1", "tz-kiritimati", "umask-077", "clock+400d", "consulted-vars", "everything"]
+ENV_CONFIGS_QUICK = ["1AJJ-amber", "1A1P-swanson-ffout", "1QBS-ligand", "5vav-charmm-ws"]
+
+
+def factor_setup(factor, decoy: Path, consulted):
+    """-> (env updates, cwd or None, umask or None, clock shift seconds)"""
+    env, cwd, um, shift = {}, None, None, 0
+    parts = ENV_FACTORS_QUICK[:-1] if factor == "everything" else [factor]
+    for f in parts:
+        if f == "cwd-decoys":
+            cwd = str(decoy)
+        elif f == "cwd-garbage":
+            cwd = cwd if factor == "everything" else str(decoy) + "_garbage"
+        elif f == "home-decoys":
+            env.update(HOME=str(decoy), XDG_CONFIG_HOME=str(decoy), XDG_DATA_HOME=str(decoy), USERPROFILE=str(decoy))
+        elif f == "lang-C":
+            env.update(LANG="C", LC_ALL="C", LANGUAGE="C")
+        elif f == "lc-all-posix-noutf8":
+            env.update(LC_ALL="POSIX", PYTHONUTF8="0", PYTHONCOERCECLOCALE="0")
+        elif f == "lang-latin1":
+            env.update(LANG="en_US.ISO-8859-1", LC_ALL="en_US.ISO-8859-1", LC_TIME="de_DE.UTF-8", LC_NUMERIC="de_DE.UTF-8")
+        elif f == "tz-kiritimati":
+            env.update(TZ="Pacific/Kiritimati")
+        elif f == "umask-077":
+            um = 0o077
+        elif f == "clock+400d":
+            shift = 400 * 86400 + 12345
+        elif f == "consulted-vars":
+            for v in consulted:
+                env[v] = str(decoy)
+            env.setdefault("PDB2PQR_HOME", str(decoy))
+            env.setdefault("PDB2PQR_DATA", str(decoy))
+    if factor == "everything":
+        env.pop("LC_ALL", None)
+        env.update(LANG="C", LC_ALL="C")
+    return env, cwd, um, shift
+
+
+def data_ascii_stage(ctx):
+    """Review assumption behind the E_locale entries: package data files are 7-bit ASCII."""
+    bad = []
+    datdir = core.REPO / "pdb2pqr" / "dat"
+    files = sorted(p for p in datdir.iterdir() if p.is_file()) if datdir.is_dir() else []
+    for p in files:
+        b = p.read_bytes()
+        ctx.cov["correspondence_cases"] += 1
+        if any(x >= 0x80 for x in b):
+            bad.append(p.name)
+    ctx.cov["env_data_ascii_files"] = len(files)
+    if bad:
+        ctx.cov["correspondence_disagreements"] += 1
+        ctx.broke("correspondence-broken", "review assumption 'package data files are pure ASCII' (E_locale entries of gen/survivors_reviewed.json) vs pdb2pqr/dat", "non-ASCII bytes in: " + ", ".join(bad), {"kind": "data-ascii", "files": bad})
+    return not bad
+
+
+def fs_tie_stage(ctx, data, trace: Trace):
+    """Every file-system access the traced runs made FROM a pdb2pqr source line must be a site the scan lists."""
+    if not data:
+        return
+    listed = {}
+    for x in data.get("fs_access_sites", []):
+        fn, ln = x["where"].rsplit(":", 1)
+        for k in range(int(ln), int(x.get("end_line", ln)) + 1):
+            listed[(fn, k)] = x
+    seen, third = {}, set()
+    for sp, hits in trace.probes.items():
+        for kind, who in hits:
+            if who.startswith("pdb2pqr/"):
+                seen.setdefault(who, []).append((kind, sp))
+            elif who.startswith("third-party:"):
+                third.add(who[12:])
+    ctx.cov["fs_access_lines_seen_at_run_time"] = sorted(seen)
+    ctx.cov["fs_access_third_party"] = sorted(third)
+    for who in sorted(seen):
+        fn, ln = who.rsplit(":", 1)
+        ctx.cov["correspondence_cases"] += 1
+        if (fn, int(ln)) not in listed:
+            ctx.cov["correspondence_disagreements"] += 1
+            kind, sp = seen[who][0]
+            ctx.broke("correspondence-broken", f"gen/survivors.py file-system sites vs real run: {who} performs {kind}({sp!r}) but the scan lists no file-system access there", "the path-provenance scan missed an access site (unknown API?)", {"kind": "fs-tie", "site": who, "probe": sp})
+
+
+def env_stage(ctx, data, configs, scratch: Path, base, trace: Trace):
+    """The same request from another working directory full of decoys / under another environment."""
+    names = decoy_names(trace.probes, scratch)
+    decoy = scratch / "elsewhere"
+    made = build_decoys(names, decoy)
+    junk = scratch / "elsewhere_garbage"
+    build_decoys(names, junk, garbage=True)
+    consulted = sorted(trace.envvars)
+    ctx.cov["env_decoy_names"] = made
+    ctx.cov["env_relative_probes"] = sorted(n for n, why in names.items() if why == "relative path probed")
+    ctx.cov["env_vars_consulted_by_pdb2pqr"] = {k: trace.envvars[k] for k in consulted}
+    # (a) in this process: A (home), chdir, A, chdir back, A
+    home = os.getcwd()
+    for name in configs:
+        if base.get(name) is None:
+            continue
+        outs = []
+        for where, dd in (("elsewhere", decoy), ("garbage", junk)):
+            try:
+                os.chdir(dd)
+                outs.append((where, run_inproc(configs[name], scratch, "e")))
+            finally:
+                os.chdir(home)
+        outs.append(("back", run_inproc(configs[name], scratch, "e")))
+        for where, (b, err) in outs:
+            ctx.count(f"env:inproc-{where}")
+            ctx.evaluated(("env-inproc", name, where), bool(base[name]) and base[name].count(b"ATOM") > 0)
+            if b != base[name]:
+                sig = signature("environment", configs[name], base[name], b)
+                sig["factor"] = {"elsewhere": "cwd-decoys", "garbage": "cwd-garbage", "back": "after-chdir"}[where]
+                ctx.fail(sig, f"{name}: the same request run with the process sitting in another directory (holding same-named decoy files: {', '.join(made[:6])}...) gives different PQR bytes: first difference in {sig['field']}" + (f" (run failed: {err})" if err else ""), {"kind": "environment", "mode": "inproc", "name": name, "cfg": list(configs[name]), "factor": sig["factor"], "decoys": made, "consulted": consulted, "history": ["run at home", "os.chdir(decoys)", "run", "os.chdir(garbage decoys)", "run", "os.chdir(home)", "run"]})
+    # (b) fresh processes, one factor at a time and all together
+    names_b = [n for n in (list(configs) if ctx.thorough else ENV_CONFIGS_QUICK) if n in configs]
+    jobs = []
+    for n in names_b:
+        for fct in ENV_FACTORS_QUICK:
+            jobs.append((n, configs[n], "0", fct))
+    res = run_children(jobs, scratch, env_of=lambda job: factor_setup(job[3], decoy, consulted))
+    for (name, k), (b, info, seed) in sorted(res.items(), key=lambda kv: kv[0][1]):
+        fct = jobs[k][3]
+        ctx.count(f"env:{fct}")
+        if info.get("died"):
+            ctx.broke("harness-error", f"child process for {name} under environment factor {fct} died", info["err"])
+            continue
+        ctx.evaluated(("env", name, fct), bool(b) and b.count(b"ATOM") > 0 and info.get("factor_applied", True))
+        if b != base.get(name):
+            sig = signature("environment", configs[name], base.get(name), b)
+            sig["factor"] = fct
+            ctx.fail(sig, f"{name}: a fresh process under environment factor '{fct}' gives different PQR bytes than the same request at home: first difference in {sig['field']}" + (f" (run failed: {info.get('err')})" if info.get("err") else ""), {"kind": "environment", "mode": "child", "name": name, "cfg": list(configs[name]), "factor": fct, "decoys": made, "consulted": consulted})
+    ctx.cov["env_child_encodings_seen"] = sorted({str(i.get("encoding")) for (_, i, _) in res.values()})
+    ctx.cov["env_child_timezones_seen"] = sorted({str(i.get("tz")) for (_, i, _) in res.values()})
+    shutil.rmtree(decoy, ignore_errors=True)
+    shutil.rmtree(junk, ignore_errors=True)
+
+
+# ---------------------------------------------------------------------------
 # diagnosis of a byte difference -> signature
 
 FIELDS10 = ["record", "serial", "atom-name", "res-name", "res-seq", "x", "y", "z", "charge", "radius"]
@@ -493,8 +905,10 @@ FIELDS11 = ["record", "serial", "atom-name", "res-name", "chain", "res-seq", "x"
 
 
 def first_diff_field(a: bytes | None, b: bytes | None) -> str:
+    if a == b:
+        return "none"
     if a is None or b is None:
-        return "output-missing" if (a is None) != (b is None) else "none"
+        return "output-missing"
     la, lb = a.decode("latin-1").splitlines(), b.decode("latin-1").splitlines()
     if sorted(la) == sorted(lb) and la != lb:
         return "line-order"
@@ -580,13 +994,14 @@ def tie_stage(ctx, data, configs, fails, scratch):
     return seen_keys
 
 
-def history_stage(ctx, configs, fails, scratch, volume):
+def history_stage(ctx, configs, fails, scratch, volume, trace=None):
     """A-B-A and A-fail-A histories in THIS process; bytes compared with the first run of each config."""
     base = {}
     errs = {}
     order = list(configs)
     for name in order:
-        b, err = run_inproc(configs[name], scratch, "h")
+        with trace if trace is not None else contextlib.nullcontext():
+            b, err = run_inproc(configs[name], scratch, "h")
         base[name], errs[name] = b, err
         if err or not b:
             ctx.notes.append(f"history: baseline run {name} failed: {err}")
@@ -664,7 +1079,12 @@ def run(ctx):
         "containing other successful and failing runs (systematic A-fail-A / A-B-A, then seeded random interleavings); (b) fresh "
         "subprocesses under different PYTHONHASHSEEDs. Non-trivial = the output has ATOM lines and (a) at least one other run "
         "happened in between / (b) the child really ran under its own seed. Distinct by (configuration, immediately preceding "
-        "event) resp. (configuration, seed, observed hash('pdb2pqr') probe)."
+        "event) resp. (configuration, seed, observed hash('pdb2pqr') probe). (c) environment: the same request with the process "
+        "chdir'ed into a directory of DECOYS (one per relative/bare name the traced reference runs probed and per file under "
+        "pdb2pqr/dat: a well-formed copy with every radius / coordinate nudged, and a second directory with garbage content), and "
+        "fresh processes started there or under another HOME, LANG/LC_ALL (C, POSIX without UTF-8 mode, latin-1), TZ, umask, a "
+        "clock 400 days ahead, every environment variable the package consulted pointed at the decoys, and all at once; distinct "
+        "by (configuration, factor)."
     )
     ctx.cov["explanation"] = (
         "Claim level 'other': the Coq theorems are about a dependency abstraction generated from the source (which objects outlive "
@@ -684,7 +1104,10 @@ def run(ctx):
             for s in so[:8]:
                 ctx.broke("proof-broken", f"C11_generated_obligation: survivor {s['id']} ({s['kind']}, {s['where']}) is written after import AND can flow to the output", "writers: " + "; ".join(f"{w['site']} {w['func']} {w['op']}" for w in s["writers"][:6]), {"kind": "obligation", "survivor": s["id"]})
             for e in eo[:8]:
-                ctx.broke("proof-broken", f"C11_no_unordered_iteration: {e['kind']} at {e['where']} ({e['id']}) can reach the output and is not sorted", e["detail"], {"kind": "obligation", "entropy_site": e["id"]})
+                how = "can reach the output and is not sorted" if e["kind"].startswith("E_set") else "is an environment/entropy read that can reach the output and is not on the reviewed list"
+                if e["kind"] == "E_fs_cwd":
+                    how = "is a file-system access whose path is not derived from a path option, an entry-point parameter or the package directory (resolved against the current working directory / supplied by the environment)"
+                ctx.broke("proof-broken", f"C11_no_unordered_iteration: {e['kind']} at {e['where']} ({e['id']}) {how}", e["detail"], {"kind": "obligation", "entropy_site": e["id"]})
         # the Coq tables are the generator's tables (row-by-row)
         try:
             rows = core.run_cases("C11", HEADER, ['String.concat "\n" (map show_surv survivors)', 'String.concat "\n" (map show_esite entropy_sites)', 'String.concat "\n" (survivor_offenders survivors ++ entropy_offenders entropy_sites)'])
@@ -703,7 +1126,10 @@ def run(ctx):
         ctx.cov["survivors"] = len(data["survivors"])
         ctx.cov["survivors_written_after_import"] = [s["id"] for s in data["survivors"] if s["written_after_import"]]
         ctx.cov["entropy_sites"] = [e["id"] for e in data["entropy_sites"]]
-        ctx.cov["scan"] = {k: data[k] for k in ("modules", "functions", "classes", "import_only_functions", "set_typed", "stale_reviewed_keys")}
+        ctx.cov["scan"] = {k: data[k] for k in ("modules", "functions", "classes", "import_only_functions", "set_typed", "stale_reviewed_keys", "stale_path_options", "fs_method_name_collisions")}
+        ctx.cov["fs_access_sites"] = [f"{x['where']} {x['access']}({x['path']}) <- {', '.join(x['origins'])} => {', '.join(x['verdict'])}" for x in data["fs_access_sites"]]
+        if data["stale_path_options"]:
+            ctx.notes.append("path_options naming no argparse dest in the current tree: " + ", ".join(data["stale_path_options"]))
         for s in data["survivors"]:
             if s["reviewed_reason"]:
                 ctx.assumptions.append(f"REVIEWED (flows_to_output=false) {s['id']}: {s['reviewed_reason']}")
@@ -725,10 +1151,14 @@ def run(ctx):
     mutated = tie_stage(ctx, data, configs, fails, scratch)
     escalate = (not ok) or len(ctx.broken) > broke_before
     volume = (500 if ctx.thorough else 110) * (3 if escalate else 1)
-    base = history_stage(ctx, configs, fails, scratch, volume)
+    data_ascii_stage(ctx)
+    trace = Trace()
+    base = history_stage(ctx, configs, fails, scratch, volume, trace)
+    fs_tie_stage(ctx, data, trace)
     names = list(configs) if ctx.thorough else SEED_CONFIGS_QUICK
     seeds = SEEDS_THOROUGH if (ctx.thorough or escalate) else SEEDS_QUICK
     by = seeds_stage(ctx, configs, names, seeds, scratch, base)
+    env_stage(ctx, data, configs, scratch, base, trace)
     k0 = next(iter(configs))
     ctx.sample({"in_process_history_sample": "A-fail-A", "config": k0, "cfg": list(configs[k0]), "bytes": len(base.get(k0) or b""), "sha256": hashlib.sha256(base.get(k0) or b"").hexdigest()})
     for name, runs in list(by.items())[:2]:
@@ -743,10 +1173,12 @@ def run(ctx):
         "hypotheses of C11_history_independence (reads_only, writes_only): the meaning of the scan; Section-style premises, not axioms",
         "not modelled: CPython itself, C extensions (numpy), third-party packages (propka, mmcif_pdbx, requests) - their history/seed independence is only explored through the PROPKA / CIF / ligand configurations",
         "snapshot hasher (structural, address-free, sets order-insensitive) and the byte comparison harness",
+        "environment tracer (audit hook for open + wrappers of os.stat/lstat/access/listdir/scandir and os.environ lookups): accesses made through other C-level calls are not seen; decoy construction (nudged copies)",
     ]
     ctx.assumptions += [
         "runs are issued through pdb2pqr.main.main_driver with a freshly parsed argparse.Namespace (main_driver mutates its args object: ff lower-cased, debump/opt switched off by --clean/--assign-only)",
-        "input files and the files under pdb2pqr/dat do not change between the compared runs; locale, environment variables and the working directory are part of 'the process' and are not varied",
+        "input files and the files under pdb2pqr/dat do not change between the compared runs; working directory, HOME, LANG/LC_ALL, TZ, umask and the clock ARE varied (environment stage) but only over the listed factors; input/output/ligand/user-ff paths are given as absolute paths (a relative user path is by definition resolved against the working directory)",
+        "path-carrying command-line options (gen/survivors_reviewed.json 'path_options'): " + ", ".join(sorted((data or {}).get("path_options", {}))),
         "histories explored contain only the listed configurations; PQR header lines are not written by this version (print_pqr ignores them), so nothing is normalised before comparing bytes",
     ]
 
@@ -781,6 +1213,29 @@ def replay(ctx, data):
             outs.add(hashlib.sha256(b or b"").hexdigest())
         print(f"replay: {len(outs)} distinct outputs over seeds {seeds}")
         return 1 if len(outs) > 1 else 0
+    if kind == "environment":
+        import_all()
+        cfg = tuple(case["cfg"])
+        decoy = scratch / "elsewhere"
+        build_decoys({n: "replay" for n in case.get("decoys", [])}, decoy)
+        build_decoys({n: "replay" for n in case.get("decoys", [])}, scratch / "elsewhere_garbage", garbage=True)
+        ref, _ = run_inproc(cfg, scratch, "r")
+        if case.get("mode") == "inproc":
+            home = os.getcwd()
+            try:
+                os.chdir(scratch / "elsewhere_garbage" if case["factor"] == "cwd-garbage" else decoy)
+                b, err = run_inproc(cfg, scratch, "r")
+            finally:
+                os.chdir(home)
+        else:
+            res = run_children([(case["name"], cfg, "0", case["factor"])], scratch, env_of=lambda job: factor_setup(job[3], decoy, case.get("consulted", [])))
+            b, info, _ = next(iter(res.values()))
+            err = info.get("err")
+        print(f"replay: {case['name']} under factor {case['factor']}: {'DIFFERENT bytes' if b != ref else 'same bytes'} (first difference: {first_diff_field(ref, b)}; error: {err})")
+        return 1 if b != ref else 0
+    if kind in ("fs-tie", "data-ascii"):
+        print("replay: re-run ./check C11 (scan/run-time tie of file-system sites)")
+        return 0
     if kind == "tie":
         import_all()
         before = snapshot()
